@@ -26,7 +26,9 @@ def _load_variants(prop):
 def _apply(variant, root):
     edits = variant.get("edits") or [(variant["file"], variant["old"], variant["new"])]
     overlay = {}
-    for rel, old, new in edits:
+    for ed in edits:
+        rel, old, new = ed[:3]
+        want = ed[3] if len(ed) > 3 else variant.get("count", 1)
         p = os.path.join(root, rel)
         if rel in overlay:
             src = overlay[rel]
@@ -36,8 +38,8 @@ def _apply(variant, root):
                     src = fh.read()
             except OSError:
                 return None, "file missing"
-        if src.count(old) != variant.get("count", 1):
-            return None, "anchor text not found exactly %d time(s) in %s" % (variant.get("count", 1), rel)
+        if src.count(old) != want:
+            return None, "anchor text not found exactly %d time(s) in %s" % (want, rel)
         src = src.replace(old, new)
         try:
             compile(src, rel, "exec")
